@@ -97,7 +97,9 @@ def build(c, key):
     lvl = c["level"]
     cattr = f"#[{a}({vlib.rust_str(lit)}{args})]\n" if c["hasAttr"] else ""
     # a third of the generic cases carry a where-clause of the user's own (the inferred bounds must be ADDED to it)
-    wh = (" where " + ", ".join(f"{p}: Clone" for p in params)) if (params and vlib.seeded_pick(key, 31, 3) == 0) else ""
+    # (every other one of them ends in a comma, as rustfmt writes multi-line where-clauses)
+    wh = (" where " + ", ".join(f"{p}: Clone" for p in params) + ("," if vlib.seeded_pick(key, 37, 2) == 0 else "")) \
+        if (params and vlib.seeded_pick(key, 31, 3) == 0) else ""
     if lvl in ("struct", "debug_fields"):
         item = (f"{cattr}pub struct S{g}{wh} {body}" if named else f"{cattr}pub struct S{g} {body}{wh};")
         name = "S"
